@@ -1,117 +1,83 @@
 package main
 
-// C26 facts: bfe_basic.HopHeaders (order matters: it is the loop order of hopByHopHeaderRemove) and the
-// write exclusion table of Request.write (shared helper in c25.go).
+// C26 / C29 facts: bfe_basic.HopHeaders (sorted: deletions of distinct keys commute), bfe_server.hopByHopProtected (sorted), and for C26 the write
+// exclusion table of Request.write (c25.go).  Use sites are searched in everything reachable from hopByHopHeaderRemove.
 
 import (
 	"fmt"
 	"go/ast"
+	"sort"
 )
 
-// c26Facts reads HopHeaders, hopByHopProtected and the write exclusion table and checks the shape of hopByHopHeaderRemove.
+// c26Facts reads the tables and checks that hopByHopHeaderRemove (with the same-package helpers it calls) still has the
+// ingredients the model describes: it uses HopHeaders, reads Header["Connection"], consults hopByHopProtected and does not
+// fall back to Header.Get (first value only).
 func c26Facts(repo string) (hop, prot, excl []string, err error) {
-	fail := func(e error) ([]string, []string, []string, error) { return nil, nil, nil, e }
-	{
-		_, f, err := parseFile(repo, "bfe_basic/common.go")
-		if err != nil {
-			return fail(err)
-		}
-		cl, ok := findValue(f, "HopHeaders").(*ast.CompositeLit)
+	basic, err := pkgFiles(repo, "bfe_basic")
+	if err != nil {
+		return nil, nil, nil, err
+	}
+	server, err := pkgFiles(repo, "bfe_server")
+	if err != nil {
+		return nil, nil, nil, err
+	}
+	imported := map[string][]*ast.File{"bfe_basic": basic}
+	cl, ok := pkgValue(basic, "HopHeaders").(*ast.CompositeLit)
+	if !ok {
+		return nil, nil, nil, fmt.Errorf("bfe_basic.HopHeaders is not a composite literal")
+	}
+	for _, e := range cl.Elts {
+		s, ok := strConst(e, basic, nil)
 		if !ok {
-			return fail(fmt.Errorf("bfe_basic.HopHeaders is not a composite literal"))
+			return nil, nil, nil, fmt.Errorf("bfe_basic.HopHeaders: element is neither a string literal nor a constant")
 		}
-		var hop []string
-		for _, e := range cl.Elts {
-			s, ok := strLit(e)
-			if !ok {
-				return fail(fmt.Errorf("bfe_basic.HopHeaders: non-literal element"))
-			}
-			hop = append(hop, s)
-		}
-		// hopByHopHeaderRemove must still range over bfe_basic.HopHeaders
-		_, g, err := parseFile(repo, "bfe_server/reverseproxy.go")
-		if err != nil {
-			return fail(err)
-		}
-		fd := findFunc(g, "", "hopByHopHeaderRemove")
-		if fd == nil {
-			return fail(fmt.Errorf("hopByHopHeaderRemove not found"))
-		}
-		// shape the model describes (after fix C26-connection-tokens):
-		//   hopHeaders := bfe_basic.HopHeaders[...]  + append(… CanonicalHeaderKey(token of req.Header["Connection"]))
-		//   for _, h := range hopHeaders { hvs := outreq.Header[h]; if len(hvs) == 0 {continue}; Te special case; Del }
-		usesTable, readsConnection, rangesLocal, usesGet := false, false, false, false
-		ast.Inspect(fd, func(n ast.Node) bool {
+		hop = append(hop, s)
+	}
+	// the result of the loop does not depend on the order of the names (deletions of distinct keys commute): emit sorted
+	sort.Strings(hop)
+	pv := pkgValue(server, "hopByHopProtected")
+	if pv == nil {
+		return nil, nil, nil, fmt.Errorf("bfe_server.hopByHopProtected not found")
+	}
+	if prot, err = boolSet("hopByHopProtected", pv, server, imported); err != nil {
+		return nil, nil, nil, err
+	}
+	roots := pkgFuncs(server, "hopByHopHeaderRemove")
+	if len(roots) == 0 {
+		return nil, nil, nil, fmt.Errorf("bfe_server.hopByHopHeaderRemove not found")
+	}
+	fds := reachable(server, roots)
+	usesTable, readsConnection, usesProt, usesGet := false, false, mentions(fds, "hopByHopProtected"), false
+	for _, fd := range fds {
+		ast.Inspect(fd.Body, func(n ast.Node) bool {
 			switch v := n.(type) {
 			case *ast.SelectorExpr:
 				if v.Sel.Name == "HopHeaders" {
 					usesTable = true
 				}
-				if v.Sel.Name == "Get" {
-					usesGet = true
+			case *ast.CallExpr:
+				// X.Header.Get(...): the pre-fix test on the first value only
+				if se, ok := v.Fun.(*ast.SelectorExpr); ok && se.Sel.Name == "Get" {
+					if inner, ok := se.X.(*ast.SelectorExpr); ok && inner.Sel.Name == "Header" {
+						usesGet = true
+					}
 				}
 			case *ast.IndexExpr:
-				if s, ok := strLit(v.Index); ok && s == "Connection" {
+				if s, ok := strConst(v.Index, server, imported); ok && s == "Connection" {
 					readsConnection = true
 				}
-			case *ast.RangeStmt:
-				if id, ok := v.X.(*ast.Ident); ok && id.Name == "hopHeaders" {
-					rangesLocal = true
-				}
 			}
 			return true
 		})
-		if !usesTable || !readsConnection || !rangesLocal || usesGet {
-			return fail(fmt.Errorf("hopByHopHeaderRemove does not have the shape the C26 model describes (HopHeaders=%v Header[\"Connection\"]=%v range hopHeaders=%v Header.Get=%v)",
-				usesTable, readsConnection, rangesLocal, usesGet))
-		}
-		// names a Connection token cannot remove: var hopByHopProtected = map[string]bool{ bfe_basic.HeaderX: true, ... }
-		pcl, ok := findValue(g, "hopByHopProtected").(*ast.CompositeLit)
-		if !ok {
-			return fail(fmt.Errorf("bfe_server.hopByHopProtected is not a composite literal"))
-		}
-		var prot []string
-		for _, e := range pcl.Elts {
-			kv, ok := e.(*ast.KeyValueExpr)
-			if !ok {
-				return fail(fmt.Errorf("hopByHopProtected: unexpected element"))
-			}
-			val, ok := kv.Value.(*ast.Ident)
-			if !ok || val.Name != "true" {
-				return fail(fmt.Errorf("hopByHopProtected: value is not the literal true"))
-			}
-			name := ""
-			switch k := kv.Key.(type) {
-			case *ast.SelectorExpr:
-				if c, ok := strLit(findValue(f, k.Sel.Name)); ok {
-					name = c
-				}
-			case *ast.BasicLit:
-				name, _ = strLit(k)
-			}
-			if name == "" {
-				return fail(fmt.Errorf("hopByHopProtected: key is neither a string literal nor a bfe_basic string constant"))
-			}
-			prot = append(prot, name)
-		}
-		usesProt := false
-		ast.Inspect(fd, func(n ast.Node) bool {
-			if ix, ok := n.(*ast.IndexExpr); ok {
-				if id, ok := ix.X.(*ast.Ident); ok && id.Name == "hopByHopProtected" {
-					usesProt = true
-				}
-			}
-			return true
-		})
-		if !usesProt {
-			return fail(fmt.Errorf("hopByHopHeaderRemove does not consult hopByHopProtected"))
-		}
-		excl, err := c25ExcludeTable(repo)
-		if err != nil {
-			return fail(err)
-		}
-		return hop, prot, excl, nil
 	}
+	if !usesTable || !readsConnection || !usesProt || usesGet {
+		return nil, nil, nil, fmt.Errorf("hopByHopHeaderRemove (with the helpers it calls) does not have the ingredients the C26 model describes (HopHeaders=%v Header[\"Connection\"]=%v hopByHopProtected=%v Header.Get=%v)",
+			usesTable, readsConnection, usesProt, usesGet)
+	}
+	if excl, err = c25ExcludeTable(repo); err != nil {
+		return nil, nil, nil, err
+	}
+	return hop, prot, excl, nil
 }
 
 func init() {
@@ -121,21 +87,21 @@ func init() {
 			return "", err
 		}
 		return header("C26", "bfe_basic/common.go", "bfe_server/reverseproxy.go", "bfe_http/request.go") +
-			leanBytesList("hopHeaders", "bfe_basic.HopHeaders in source order", hop) + "\n" +
-			leanBytesList("hopProtected", "keys of bfe_server.hopByHopProtected (headers BFE sets itself; Connection tokens cannot remove them)", prot) + "\n" +
+			leanBytesList("hopHeaders", "bfe_basic.HopHeaders, sorted", hop) + "\n" +
+			leanBytesList("hopProtected", "keys of bfe_server.hopByHopProtected, sorted (headers BFE sets itself; Connection tokens cannot remove them)", prot) + "\n" +
 			leanBytesList("reqWriteExclude", "keys of reqWriteExcludeHeader mapped to true", excl) +
 			footer("C26"), nil
 	})
-	// C29 composes the C26 model of hopByHopHeaderRemove: its own copy of the two tables lets C29's Props assert
-	// that Generated/C26.lean is not stale (theorem C29_tables_current)
+	// C29 composes the C26 model of hopByHopHeaderRemove, instantiated with its OWN copy of the two tables, so a C29
+	// check never depends on the state of Generated/C26.lean
 	register("C29", func(repo string) (string, error) {
 		hop, prot, _, err := c26Facts(repo)
 		if err != nil {
 			return "", err
 		}
 		return header("C29", "bfe_basic/common.go", "bfe_server/reverseproxy.go") +
-			leanBytesList("hopHeaders", "bfe_basic.HopHeaders in source order", hop) + "\n" +
-			leanBytesList("hopProtected", "keys of bfe_server.hopByHopProtected", prot) +
+			leanBytesList("hopHeaders", "bfe_basic.HopHeaders, sorted", hop) + "\n" +
+			leanBytesList("hopProtected", "keys of bfe_server.hopByHopProtected, sorted", prot) +
 			footer("C29"), nil
 	})
 }
